@@ -94,6 +94,7 @@ const (
 	lFill
 	lCopy
 	lConc
+	lMap // window: fn(tag, i-dlo, read(src, i-dlo+slo)) for i in [dlo, dlo+n)
 )
 
 type layer struct {
@@ -259,6 +260,20 @@ func (ex *Exec) layerRead(l *layer, i *Term) *Term {
 			res = ex.layerRead(l.next, i)
 		} else {
 			in := ex.layerRead(l.src, tf.Add(tf.Sub(i, l.lo), l.slo))
+			if c.IsTrue() {
+				res = in
+			} else {
+				res = tf.Ite(c, in, ex.layerRead(l.next, i))
+			}
+		}
+	case lMap:
+		c := tf.Ult(tf.Sub(i, l.lo), l.n)
+		c = ex.simplifyUnderPC(c)
+		if c.IsFalse() {
+			res = ex.layerRead(l.next, i)
+		} else {
+			k := tf.Sub(i, l.lo)
+			in := tf.Apply(l.arr, 8, l.idx, k, tf.ZExt(ex.layerRead(l.src, tf.Add(k, l.slo)), 64))
 			if c.IsTrue() {
 				res = in
 			} else {
